@@ -25,7 +25,7 @@
    n >= 4.  (ii)+(iii) imply that only G = 0 produces zero forces (a natural cubic spline with n knots that does not
    vanish on an interval has <= n+1 zeros < 2(n-1); one vanishing on an interval is c (x - knot)^3 next to it, which
    has no zero inside), i.e. the least-squares problem of every block has full rank.  Draws that fail are skipped. *)
-EXTENDS Integers, Sequences, FiniteSets, TLC, Json, LsqRand
+EXTENDS Integers, Sequences, FiniteSets, TLC, Json, LsqRand, Lsq, CArith
 
 (* Extension round (layouts, grids, options).  An instance now also has
      layout 0  one bead type, one pair interaction A-A                                  (as before)
@@ -96,6 +96,82 @@ InterName(g, c) == IF IsBond(g, c) THEN "bond1" ELSE IF g.layout = 1 /\ c = 2 TH
 Active(g, pos, i, j) == LET lo == IF i < j THEN i ELSE j  hi == IF i < j THEN j ELSE i  c == Cls(g, lo, hi)
                         IN i # j /\ c > 0 /\ (IsBond(g, c) \/ DistLT(g, N2(Sub(pos[i], pos[j])), GMax(g)))
 
+(* ------------------------------ the force function, exactly --------------------------- *)
+(* The force function of an interaction is THE cubic spline through (x_k, y_k) with the boundary conditions of the
+   interaction (natural: f'' = 0 at both ends; periodic: f, f', f'' equal at both ends).  Its second derivatives M_k are
+   determined by the continuity of f' at the knots; TLC solves that system exactly (Cramer, Lsq.tla) and emits
+   M = m2num / m2den (per squared grid unit).  The generator evaluates the spline from (y, M) with the real
+   CubicSpline::setSplineData + Calculate, so it shares NO continuity/boundary code with the fit under test
+   (Interpolate, AddBCToFitMatrix and the *_prime helpers are on the side of the code under test only).
+   Knots x (integers in grid units, not necessarily equidistant: the last interval may be longer), values y.      *)
+SplH(x, i) == x[i + 1] - x[i]
+\* row of knot i (2 <= i <= n-1), multiplied by 6 h_{i-1} h_i:  coefficients of M_{i-1}, M_i, M_{i+1} and right-hand side
+SplRowL(x, i) == SplH(x, i - 1) * SplH(x, i - 1) * SplH(x, i)
+SplRowM(x, i) == 2 * (SplH(x, i - 1) + SplH(x, i)) * SplH(x, i - 1) * SplH(x, i)
+SplRowR(x, i) == SplH(x, i) * SplH(x, i) * SplH(x, i - 1)
+SplRhs(x, y, i) == 6 * (SplH(x, i - 1) * (y[i + 1] - y[i]) - SplH(x, i) * (y[i] - y[i - 1]))
+\* natural: unknowns M_2..M_{n-1}
+NatSystem(x, y) == LET n == Len(x) IN
+  [M |-> [r \in 1..(n - 2) |-> [c \in 1..(n - 2) |->
+             IF c = r - 1 THEN SplRowL(x, r + 1) ELSE IF c = r THEN SplRowM(x, r + 1)
+             ELSE IF c = r + 1 THEN SplRowR(x, r + 1) ELSE 0]],
+   rhs |-> [r \in 1..(n - 2) |-> SplRhs(x, y, r + 1)]]
+\* periodic (y_n = y_1): unknowns M_1..M_{n-1}, M_n = M_1; row 1 is the junction (left interval n-1, right interval 1)
+PerSystem(x, y) == LET n == Len(x)  hl == SplH(x, n - 1)  hr == SplH(x, 1) IN
+  [M |-> [r \in 1..(n - 1) |-> [c \in 1..(n - 1) |->
+             IF r = 1 THEN (IF c = 1 THEN 2 * (hl + hr) * hl * hr ELSE 0) + (IF c = n - 1 THEN hl * hl * hr ELSE 0)
+                           + (IF c = 2 THEN hr * hr * hl ELSE 0)
+             ELSE (IF c = r - 1 THEN SplRowL(x, r) ELSE 0) + (IF c = r THEN SplRowM(x, r) ELSE 0)
+                  + (IF c = (IF r = n - 1 THEN 1 ELSE r + 1) THEN SplRowR(x, r) ELSE 0)]],
+   rhs |-> [r \in 1..(n - 1) |-> IF r = 1 THEN 6 * (hl * (y[2] - y[1]) - hr * (y[1] - y[n - 1])) ELSE SplRhs(x, y, r)]]
+SplineM2(x, y, periodic) ==
+  LET n == Len(x)
+      sy == IF periodic THEN PerSystem(x, y) ELSE NatSystem(x, y)
+      so == Solve(sy.M, sy.rhs)
+  IN [num |-> IF periodic THEN so.num \o <<so.num[1]>> ELSE <<0>> \o so.num \o <<0>>, den |-> so.den]
+\* the defining property, stated independently of how the system was assembled: f' is continuous at knot i, i.e.
+\*   h_{i-1}/6 M_{i-1} + (h_{i-1}+h_i)/3 M_i + h_i/6 M_{i+1} = (y_{i+1}-y_i)/h_i - (y_i-y_{i-1})/h_{i-1}   (times 6 h h den)
+SlopeContinuous(x, y, m2, il, i, ir) ==
+  LET hl == x[il + 1] - x[il]  hr == x[ir] - x[ir - 1]
+  IN hr * hl * (hl * m2.num[il] + 2 * (hl + hr) * m2.num[i] + hr * m2.num[ir])
+       = 6 * m2.den * (hl * (y[ir] - y[ir - 1]) - hr * (y[il + 1] - y[il]))
+SplineLaw(x, y, m2, periodic) ==
+  LET n == Len(x)
+  IN /\ m2.den # 0 /\ Len(m2.num) = n
+     /\ \A i \in 2..(n - 1) : SlopeContinuous(x, y, m2, i - 1, i, i + 1)
+     /\ IF periodic THEN /\ y[1] = y[n] /\ m2.num[1] = m2.num[n]
+                         /\ SlopeContinuous(x, y, m2, n - 1, 1, 2)            \* junction: left piece n-1, right piece 1
+                         /\ SumSeq(y) = 0                                     \* the sum-zero condition of csg_fmatch
+        ELSE m2.num[1] = 0 /\ m2.num[n] = 0
+
+(* ------------------------------ angles and dihedrals on the lattice ---------------------- *)
+(* angular grids have their knots at multiples of 30 degrees, where cos^2 is rational: a = 0..6 <-> 0, 30, .., 180 deg *)
+AKnotCos2 == << <<1, 1>>, <<3, 4>>, <<1, 4>>, <<0, 1>>, <<1, 4>>, <<3, 4>>, <<1, 1>> >>
+AKnotSgn(a) == IF a < 3 THEN 1 ELSE IF a = 3 THEN 0 ELSE -1
+SgnI(v) == IF v > 0 THEN 1 ELSE IF v < 0 THEN -1 ELSE 0
+\* compare cos(theta) = d / sqrt(N) with cos(a * 30 deg):  -1, 0, 1
+CmpCos(d, N, a) ==
+  LET sd == SgnI(d)  ks == AKnotSgn(a)  q == AKnotCos2[a + 1]
+      m == SgnI(d * d * q[2] - q[1] * N)
+  IN IF sd # ks THEN (IF sd > ks THEN 1 ELSE -1) ELSE IF sd = 0 THEN 0 ELSE IF sd > 0 THEN m ELSE -m
+AngGT(d, N, a) == CmpCos(d, N, a) < 0            \* theta > a * 30 deg  (theta in [0, 180])
+AngLT(d, N, a) == CmpCos(d, N, a) > 0
+\* signed angle phi = sg * acos(d / sqrt(N)), sg = +-1, against a * 30 deg, a in -6..6 (non-degenerate: 0 < acos < 180)
+PhiGT(sg, d, N, a) == IF sg > 0 THEN (a <= 0 \/ AngGT(d, N, a)) ELSE (a < 0 /\ AngLT(d, N, -a))
+PhiLT(sg, d, N, a) == IF sg > 0 THEN (a > 0 /\ AngLT(d, N, a)) ELSE (a >= 0 \/ AngGT(d, N, -a))
+\* one interaction instance: beads of molecule m -> [sg, d, N] with variable = sg * acos(d / sqrt N), as the real
+\* IAngle / IDihedral define it (angle: vectors from the middle bead; dihedral: v_k = r_{k+1} - r_k, n1 = v1 x v2,
+\* n2 = v2 x v3, sign = -1 iff v1 . n2 < 0)
+AngSite(p) == LET v1 == Sub(p[1], p[2])  v2 == Sub(p[3], p[2])
+              IN [sg |-> 1, d |-> v1[1] * v2[1] + v1[2] * v2[2] + v1[3] * v2[3], N |-> N2(v1) * N2(v2)]
+DihSite(p) == LET v1 == Sub(p[2], p[1])  v2 == Sub(p[3], p[2])  v3 == Sub(p[4], p[3])
+                  n1 == Cross(v1, v2)  n2 == Cross(v2, v3)
+              IN [sg |-> IF v1[1] * n2[1] + v1[2] * n2[2] + v1[3] * n2[3] < 0 THEN -1 ELSE 1,
+                  d |-> n1[1] * n2[1] + n1[2] * n2[2] + n1[3] * n2[3], N |-> N2(n1) * N2(n2)]
+SiteOK(st) == st.N > 0 /\ st.d * st.d # st.N                   \* neither 0 nor 180 degrees: the gradient exists
+SiteKey(st) == LET g == Gcd(st.d * st.d, st.N) IN <<st.sg, SgnI(st.d), (st.d * st.d) \div g, st.N \div g>>
+SiteInside(st, lo, hi) == PhiGT(st.sg, st.d, st.N, lo) /\ PhiLT(st.sg, st.d, st.N, hi)
+
 (* ------------------------------ building an instance ---------------------------- *)
 DrawsPerFrame == 76
 \* a chain: position c+1 = position c + a vector whose length lies in spline interval ((c + f) mod (n-1))
@@ -155,7 +231,7 @@ RunId(k) == IF k = 0 THEN "full" ELSE "blk" \o ToString(k)
 Build(s) ==
   LET R0  == StreamN(s, 32)
       l0  == Draw(R0, 10, 0, 9)
-      lay == IF l0 < 4 THEN 0 ELSE IF l0 < 7 THEN 1 ELSE 2
+      lay == IF l0 < 3 THEN 0 ELSE IF l0 < 6 THEN 1 ELSE 2             \* 8, 9: angle / dihedral instances (BuildBonded)
       b   == IF lay = 0 THEN Draw(R0, 1, 1, 3) ELSE Draw(R0, 1, 2, 3)
       K   == Draw(R0, 2, 1, 3)
       rem == IF b > 1 THEN Draw(R0, 3, 0, 1) ELSE 0
@@ -171,8 +247,12 @@ Build(s) ==
   IN [k |-> "fm", s |-> s, layout |-> lay, nb |-> g.nb, types |-> [i \in 1..g.nb |-> TypeOf(g, i)],
       gden |-> g.gden, gmin |-> g.gmin, gstep |-> g.gstep, n |-> g.n, osub |-> Draw(R0, 12, 1, 2),
       noisy |-> g.noisy, tf |-> tf,
-      inter |-> [c \in 1..NInter(g) |-> [name |-> InterName(g, c), bond |-> IsBond(g, c),
-                                         y |-> [k \in 1..g.n |-> Draw(R0, 12 + 6 * (c - 1) + k, -4, 8)]]],
+      inter |-> [c \in 1..NInter(g) |->
+                   LET x == [k \in 1..g.n |-> Knot(g, k)]
+                       y == [k \in 1..g.n |-> Draw(R0, 12 + 6 * (c - 1) + k, -4, 8)]
+                       m2 == SplineM2(x, y, FALSE)
+                   IN [name |-> InterName(g, c), bond |-> IsBond(g, c), periodic |-> FALSE, x |-> x, y |-> y,
+                       m2num |-> m2.num, m2den |-> m2.den]],
       b |-> b, K |-> K, rem |-> rem, con |-> Draw(R0, 8, 0, 1) = 1,
       frames |-> [f \in 1..NF |-> Frame(s, g, f)],
       runs |-> IF tf THEN Append(blk, [id |-> "tf", first |-> 1, nframes |-> NF, tf |-> TRUE]) ELSE blk,
@@ -181,8 +261,81 @@ Build(s) ==
                \o (IF tf THEN << [c |-> "trj-force", t |-> << <<1, "tf">>, <<-1, "full">> >>] >> ELSE <<>>)]
 
 (* ------------------------------ well-posedness ----------------------------------- *)
-Grid(q) == [gden |-> q.gden, gmin |-> q.gmin, gstep |-> q.gstep, n |-> q.n, nb |-> q.nb, layout |-> q.layout]
 BlockFrames(q, k) == ((k - 1) * q.b + 1)..(k * q.b)
+(* ------------------------------ angle / dihedral instances ------------------------------- *)
+(* layout 3: nm molecules of 3 beads, interaction angle1 (natural spline on 30..120 or 60..150 degrees, step 30);
+   layout 4: nm molecules of 4 beads, interaction dih1, fmatch.periodic, grid -180..180 degrees, step 90 (5 knots, y_5 = y_1,
+   sum of the knot values 0).  No other interaction: every bead belongs to one interaction instance, so zero net
+   forces force G(var) = 0 at every instance whose gradient exists (SiteOK).                                      *)
+MolBeads(lay) == IF lay = 3 THEN 3 ELSE 4
+ALo(q) == q.amin
+AHi(q) == q.amin + (q.n - 1) * q.astep
+MolPos(fr, q, m) == [k \in 1..q.mb |-> fr.pos[(m - 1) * q.mb + k]]
+SiteOf(fr, q, m) == IF q.layout = 3 THEN AngSite(MolPos(fr, q, m)) ELSE DihSite(MolPos(fr, q, m))
+RECURSIVE MolChain(_, _, _, _)
+MolChain(R, k0, mb, acc) == IF Len(acc) >= mb THEN acc
+                            ELSE MolChain(R, k0 + 3, mb, Append(acc, Add3(acc[Len(acc)], Vec3(R, k0, -2, 2))))
+\* molecule m of frame f: first of MTries candidates whose variable exists and lies strictly inside the grid
+MolCand(s, q, f, m, t) == LET R == StreamN(((s * 16 + f) * 8 + m) * 8 + t, 16)
+                          IN MolChain(R, 1, q.mb, << <<8 + 12 * ((m - 1) % 4), 8 + 12 * ((m - 1) \div 4), 8 + 2 * f>> >>)
+MolGood(q, p) == LET st == IF q.layout = 3 THEN AngSite(p) ELSE DihSite(p)
+                 IN /\ \A i, j \in 1..q.mb : i < j => p[i] # p[j]
+                    /\ SiteOK(st) /\ SiteInside(st, ALo(q), AHi(q))
+                    /\ q.layout = 4 => N2(Cross(Sub(p[2], p[1]), Sub(p[3], p[2]))) > 0 /\ N2(Cross(Sub(p[3], p[2]), Sub(p[4], p[3]))) > 0
+MTries == 6
+RECURSIVE PickMol(_, _, _, _, _)
+PickMol(s, q, f, m, t) == LET c == MolCand(s, q, f, m, t)
+                          IN IF t >= MTries - 1 \/ MolGood(q, c) THEN c ELSE PickMol(s, q, f, m, t + 1)
+RECURSIVE FlatMols(_, _, _, _)
+FlatMols(s, q, f, m) == IF m > q.nm THEN <<>> ELSE PickMol(s, q, f, m, 0) \o FlatMols(s, q, f, m + 1)
+BFrame(s, q, f) ==
+  LET pos == FlatMols(s, q, f, 1)
+      R   == StreamN((s * 16 + f) * 8 + 7, 8 + 6 * q.nb)
+  IN [pos |-> pos,
+      noise |-> [i \in 1..q.nb |-> IF q.noisy THEN Vec3(R, 3 * i, -2, 2) ELSE <<0, 0, 0>>],
+      known |-> [i \in 1..q.nb |-> IF q.tf THEN Vec3(R, 3 * q.nb + 3 * i, -3, 3) ELSE <<0, 0, 0>>],
+      pairs |-> <<>>]
+BuildBonded(s, lay) ==
+  LET R0  == StreamN(s, 32)
+      b   == Draw(R0, 1, 1, 3)
+      K   == Draw(R0, 2, 1, 3)
+      rem == IF b > 1 THEN Draw(R0, 3, 0, 1) ELSE 0
+      NF  == K * b + rem
+      n   == IF lay = 3 THEN 4 ELSE 5
+      nm  == IF lay = 3 THEN Draw(R0, 6, 3, 6) ELSE Draw(R0, 6, 4, 6)
+      q0  == [layout |-> lay, mb |-> MolBeads(lay), nm |-> nm, nb |-> nm * MolBeads(lay),
+              amin |-> IF lay = 3 THEN Draw(R0, 4, 1, 2) ELSE -6, astep |-> IF lay = 3 THEN 1 ELSE 3, n |-> n,
+              noisy |-> Draw(R0, 7, 0, 2) = 0, tf |-> Draw(R0, 11, 0, 2) = 0]
+      x   == [k \in 1..n |-> (q0.amin \div q0.astep) + (k - 1)]          \* knots in spline units of astep * 30 degrees
+      y0  == [k \in 1..n |-> Draw(R0, 12 + k, -4, 8)]
+      y   == IF lay = 3 THEN y0
+             ELSE [k \in 1..n |-> IF k = n THEN y0[1] ELSE IF k = n - 1 THEN -(2 * y0[1] + y0[2] + y0[3]) ELSE y0[k]]
+      m2  == SplineM2(x, y, lay = 4)
+      blk == [r \in 1..(K + 1) |-> IF r = 1 THEN [id |-> RunId(0), first |-> 1, nframes |-> NF, tf |-> FALSE]
+                                   ELSE [id |-> RunId(r - 1), first |-> (r - 2) * b + 1, nframes |-> b, tf |-> FALSE]]
+  IN [k |-> "fm", s |-> s, layout |-> lay, nb |-> q0.nb, nm |-> nm, mb |-> q0.mb, types |-> [i \in 1..q0.nb |-> "A"],
+      amin |-> q0.amin, astep |-> q0.astep, n |-> n, osub |-> Draw(R0, 12, 1, 2), gden |-> 0, gmin |-> 0, gstep |-> 0,
+      noisy |-> q0.noisy, tf |-> q0.tf,
+      inter |-> << [name |-> IF lay = 3 THEN "angle1" ELSE "dih1", bond |-> FALSE, periodic |-> lay = 4,
+                    x |-> x, y |-> y, m2num |-> m2.num, m2den |-> m2.den, udeg |-> 30 * q0.astep] >>,
+      b |-> b, K |-> K, rem |-> rem, con |-> Draw(R0, 8, 0, 1) = 1,
+      frames |-> [f \in 1..NF |-> BFrame(s, q0, f)],
+      runs |-> IF q0.tf THEN Append(blk, [id |-> "tf", first |-> 1, nframes |-> NF, tf |-> TRUE]) ELSE blk,
+      rels |-> << [c |-> "block-independence",
+                   t |-> [r \in 1..(K + 1) |-> IF r = 1 THEN <<K, RunId(0)>> ELSE <<-1, RunId(r - 1)>>]] >>
+               \o (IF q0.tf THEN << [c |-> "trj-force", t |-> << <<1, "tf">>, <<-1, "full">> >>] >> ELSE <<>>)]
+\* guard: every instance exists and lies strictly inside the grid (all frames); per block every grid interval holds >= 2
+\* distinct values strictly inside it
+BGuard(q) == /\ \A f \in 1..Len(q.frames) : \A m \in 1..q.nm : MolGood(q, MolPos(q.frames[f], q, m))
+             /\ q.n >= 4
+             /\ \A k \in 1..q.K : \A iv \in 1..(q.n - 1) :
+                   Cardinality(UNION {{SiteKey(SiteOf(q.frames[f], q, m)) :
+                                          m \in {m \in 1..q.nm : SiteInside(SiteOf(q.frames[f], q, m), q.amin + (iv - 1) * q.astep,
+                                                                            q.amin + iv * q.astep)}} :
+                                      f \in BlockFrames(q, k)}) >= 2
+
+
+Grid(q) == [gden |-> q.gden, gmin |-> q.gmin, gstep |-> q.gstep, n |-> q.n, nb |-> q.nb, layout |-> q.layout]
 \* squared distances of the active pairs of class c in block k
 Sites(q, k, c) == UNION {{q.frames[f].pairs[e][3] : e \in {e \in 1..Len(q.frames[f].pairs) : q.frames[f].pairs[e][4] = c}} :
                          f \in BlockFrames(q, k)}
@@ -193,13 +346,16 @@ BlockOK(q, k) ==
      /\ \A c \in 1..NInter(g) : \A iv \in 1..(q.n - 1) :
            Cardinality({d2 \in Sites(q, k, c) : InIv(g, d2, Knot(g, iv), Knot(g, iv + 1))}) >= 2
 \* the frames of an incomplete trailing block are read by the program too: they must be sane configurations as well
-Guard(q) == /\ \A k \in 1..q.K : BlockOK(q, k)
+Guard(q) == IF q.layout >= 3 THEN BGuard(q) ELSE
+            /\ \A k \in 1..q.K : BlockOK(q, k)
             /\ \A f \in 1..Len(q.frames) : FrameOK(Grid(q), q.frames[f])
 
 (* ------------------------------ model --------------------------------------------- *)
 Init == ph = 0 /\ \E s \in Seed0..(Seed0 + NSeeds - 1) : inst = [k |-> "seed", s |-> s]
 Next == ph = 0 /\ ph' = 1
-        /\ inst' = LET q == Build(inst.s) IN IF Guard(q) THEN q ELSE [k |-> "skip", s |-> inst.s]
+        /\ inst' = LET l0 == Draw(StreamN(inst.s, 32), 10, 0, 9)
+                       q  == IF l0 = 8 THEN BuildBonded(inst.s, 3) ELSE IF l0 = 9 THEN BuildBonded(inst.s, 4) ELSE Build(inst.s)
+                   IN IF Guard(q) THEN q ELSE [k |-> "skip", s |-> inst.s]
 Spec == Init /\ [][Next]_vars
 
 IsInst == ph = 1 /\ inst.k = "fm"
@@ -222,7 +378,7 @@ RelCoefs   == IsInst => \A r \in 1..Len(inst.rels) :
                            /\ SumCoef(inst.rels[r].t, Len(inst.rels[r].t)) = 0
                            /\ \A e \in 1..Len(inst.rels[r].t) : inst.rels[r].t[e][2] \in RunIds
 \* the pair lists handed to the generator are exactly the active pairs, with their squared distances and classes
-PairLists  == IsInst => \A f \in 1..Len(inst.frames) :
+PairLists  == (IsInst /\ inst.layout <= 2) => \A f \in 1..Len(inst.frames) :
                 LET fr == inst.frames[f]  g == Grid(inst)
                 IN /\ {<<fr.pairs[e][1], fr.pairs[e][2]>> : e \in 1..Len(fr.pairs)} = ActivePairs(g, fr.pos)
                    /\ \A e \in 1..Len(fr.pairs) : /\ fr.pairs[e][3] = N2(Sub(fr.pos[fr.pairs[e][1]], fr.pos[fr.pairs[e][2]]))
@@ -230,7 +386,7 @@ PairLists  == IsInst => \A f \in 1..Len(inst.frames) :
                                                   /\ fr.pairs[e][4] \in 1..Len(inst.inter)
 \* consecutive chain positions are neighbours in the intended interval; bead numbering is a bijection; bonds join
 \* the two beads of one molecule
-ChainOK    == IsInst => LET g == Grid(inst) IN
+ChainOK    == (IsInst /\ inst.layout <= 2) => LET g == Grid(inst) IN
                 /\ {BeadOfChain(g, c) : c \in 1..inst.nb} = 1..inst.nb
                 /\ \A f \in 1..Len(inst.frames) : \A c \in 1..(inst.nb - 1) :
                       LET d2 == N2(Sub(inst.frames[f].pos[BeadOfChain(g, c)], inst.frames[f].pos[BeadOfChain(g, c + 1)]))
@@ -238,5 +394,12 @@ ChainOK    == IsInst => LET g == Grid(inst) IN
                       IN InIv(g, d2, Knot(g, iv + 1), Knot(g, iv + 2))
                 /\ inst.layout = 2 => inst.nb % 2 = 0
 GuardHolds == IsInst => Guard(inst)
+\* the emitted second derivatives define the spline with the interaction's boundary conditions
+SplineOK   == IsInst => \A c \in 1..Len(inst.inter) :
+                 LET it == inst.inter[c]
+                 IN SplineLaw(it.x, it.y, [num |-> it.m2num, den |-> it.m2den], it.periodic)
+\* bonded-only instances: molecule layout
+BondedOK   == (IsInst /\ inst.layout >= 3) => /\ inst.nb = inst.nm * inst.mb /\ Len(inst.inter) = 1
+                                              /\ \A f \in 1..Len(inst.frames) : Len(inst.frames[f].pos) = inst.nb
 EmitRec    == (Emit /\ IsInst) => PrintT(ToJson(inst))
 =============================================================================
